@@ -321,7 +321,8 @@ func c17(ctx *Ctx) {
 var c17ModelDevs = []string{"NULLABLE_DEF_UNENFORCED", "LEN_BYTES", "ZERO_LIMIT_IGNORED", "INT_BOUND_TRUNCATED", "FLOAT_MULTIPLEOF_TOLERANCE", "NESTED_ARRAY_OUTER_LIMITS", "UNENFORCED_NAMED_ARRAY", "UNENFORCED_ITEM_STRING",
 	"UNENFORCED_ITEM_NUMERIC", "UNENFORCED_NAMED_ARRAY_ITEM_REQUIRED", "UNENFORCED_INLINE_STRUCT_PROPS", "REF_UNTYPED_DEF_IS_ANY", "SIZED_INT_ENUM_REJECTS_ALL", "DEFAULT_ENUM_NULL_REJECTED",
 	"FORMAT_DEF_NO_METHODS", "NULL_TO_ADDL_STRUCT_ERRORS", "NULL_OBJECT_VALIDATES_ZERO", "REQUIRED_UNDECLARED_IGNORED", "UNENFORCED_MAPVAL_REQUIRED", "NULLTYPE_UNENFORCED", "ADDL_INT_TRUNCATES",
-	"ADDL_NONPRIMITIVE_UNTYPED", "ANYOF_MERGED_FIELD_TYPES", "UNENFORCED_MAPVAL_STRING", "UNENFORCED_MAPVAL_NUMERIC"}
+	"ADDL_NONPRIMITIVE_UNTYPED", "ANYOF_MERGED_FIELD_TYPES", "UNENFORCED_MAPVAL_STRING", "UNENFORCED_MAPVAL_NUMERIC",
+	"ENUM_SIBLING_CONSTRAINTS_IGNORED", "INT_MULTIPLEOF_TRUNCATED", "FORMAT_STRING_CONSTRAINTS_IGNORED", "PATTERN_CR_DROPPED"}
 
 // constraint families at positions no property statement covers (DESIGN.md §8, attachment matrix): explained, never judged
 var c17Unjudged = []string{"UNENFORCED_MAPVAL_STRING", "UNENFORCED_MAPVAL_NUMERIC", "UNENFORCED_MAPVAL_ARRAY", "UNENFORCED_ADDL_STRING", "UNENFORCED_ADDL_NUMERIC", "UNENFORCED_ADDL_ARRAY"}
